@@ -1,0 +1,53 @@
+//go:build verif
+
+// Contracts for req_params.go / topic_channel_args.go (C15, C14), checked by nsqvc. Comment-only file.
+// Ghosts: mRP / mRPErr = result of the most recent NewReqParams (the parsed arguments of the request being served).
+
+package http_api
+
+// A parsed query: the map exists and every key present has at least one value (so Get's v[0] cannot panic).
+//@ pred mParamsOK(rp *ReqParams) := rp != nil && rp.Values != nil && (forall k string :: {rp.Values[k]} has(rp.Values, k) ==> len(rp.Values[k]) >= 1)
+//@ pred mHasArg(rp *ReqParams, name string) := has(rp.Values, name)
+//@ fn mArg(rp *ReqParams, name string) string := rp.Values[name][0]
+//@ ghost mRP *ReqParams
+//@ ghost mRPErr error
+
+// Server side of net/http: the request, its URL and its Body are never nil (documented for server requests).
+//@ pred mServerReq(req *http.Request) := req != nil && req.URL != nil && req.Body != nil
+
+//@ func NewReqParams(req *http.Request) (*ReqParams, error)
+//@   props C15 C14
+//@   requires[server-request] mServerReq(req)
+//@   ensures[ok] result1 == nil ==> mParamsOK(result0) && fresh(result0)
+//@   ensures[failed] result1 != nil ==> result0 == nil
+//@   modifies mRP, mRPErr
+//@   onreturn mRP := result0
+//@   onreturn mRPErr := result1
+//@   nochan
+
+//@ func (r *ReqParams) Get(key string) (string, error)
+//@   props C15 C14
+//@   requires[parsed] mParamsOK(r)
+//@   ensures[present] has(r.Values, key) ==> result1 == nil && result0 == r.Values[key][0]
+//@   ensures[absent] !has(r.Values, key) ==> result1 != nil && result0 == ""
+//@   modifies
+//@   nochan
+
+//@ func (r *ReqParams) GetAll(key string) ([]string, error)
+//@   props C15
+//@   requires r != nil
+//@   ensures[present] has(r.Values, key) ==> result1 == nil && result0 == r.Values[key]
+//@   ensures[absent] !has(r.Values, key) ==> result1 != nil && len(result0) == 0
+//@   modifies
+//@   nochan
+
+// Both names present and valid, or an error (whose text names the first problem); never touches the registry.
+//@ func GetTopicChannelArgs(rp getter) (string, string, error)
+//@   props C15 C14
+//@   requires[params] dyntype(rp) == typetag("*ReqParams") && mParamsOK(unbox(rp, "*ReqParams"))
+//@   ensures[ok] result2 == nil <==> (mHasArg(unbox(rp, "*ReqParams"), "topic") && protocol.validName(mArg(unbox(rp, "*ReqParams"), "topic")) &&
+//@        mHasArg(unbox(rp, "*ReqParams"), "channel") && protocol.validName(mArg(unbox(rp, "*ReqParams"), "channel")))
+//@   ensures[values] result2 == nil ==> result0 == mArg(unbox(rp, "*ReqParams"), "topic") && result1 == mArg(unbox(rp, "*ReqParams"), "channel")
+//@   ensures[error-empty] result2 != nil ==> result0 == "" && result1 == ""
+//@   modifies
+//@   nochan
